@@ -129,6 +129,95 @@ def oracle(r):
     return out
 
 
+# ---- the host C compiler on C-compatible shapes (amd64) ----
+C_SCALAR = {"bool": "_Bool", "word": "long", "f32": "float", "f64": "double", "c64": "float _Complex", "c128": "double _Complex",
+            "uptr": "void*", "ptr": "void*", "map": "void*", "chan": "void*"}
+
+
+def c_compatible(t):
+    k = t["k"]
+    if k == "int" or k in C_SCALAR:
+        return True
+    if k == "arr":
+        return t.get("n", 0) > 0 and c_compatible(t["e"])
+    if k == "struct":
+        fs = t.get("f") or []
+        return len(fs) > 0 and all(c_compatible(f) for f in fs)
+    return False
+
+
+def c_decl(t, name):
+    dims = ""
+    while t["k"] == "arr":
+        dims += "[%d]" % t["n"]
+        t = t["e"]
+    k = t["k"]
+    if k == "int":
+        base = "int%d_t" % (8 * t["w"])
+    elif k == "struct":
+        base = "struct { %s }" % " ".join(c_decl(f, "f%d" % i) + ";" for i, f in enumerate(t["f"]))
+    else:
+        base = C_SCALAR[k]
+    return "%s %s%s" % (base, name, dims)
+
+
+def gcc_layout(ck, lay):
+    """sizeof/_Alignof/offsetof from the host C compiler for the C-compatible structs among the amd64 records"""
+    sel = [r for r in lay if r["arch"] == "amd64" and r["t"]["k"] == "struct" and c_compatible(r["t"])][:400]
+    if not sel:
+        return 0
+    src = ["#include <stdio.h>", "#include <stddef.h>", "#include <stdint.h>"]
+    body = []
+    for i, r in enumerate(sel):
+        src.append("typedef %s;" % c_decl(r["t"], "T%d" % i))
+        offs = "".join(' printf(" %%zu", offsetof(T%d, f%d));' % (i, j) for j in range(len(r["t"]["f"])))
+        body.append('printf("%d %%zu %%zu", sizeof(T%d), _Alignof(T%d));%s printf("\\n");' % (i, i, i, offs))
+    src.append("int main(void) {\n" + "\n".join(body) + "\nreturn 0; }")
+    cp = os.path.join(ck.work, "c08_layout.c")
+    open(cp, "w").write("\n".join(src) + "\n")
+    rc, out = vlib.sh(["gcc", "-O0", "-o", cp[:-2], cp], timeout=300)
+    if rc != 0:
+        ck.correspondence_broken("gcc:c08_layout", out[-1500:])
+        return 0
+    rc, out = vlib.sh([cp[:-2]], timeout=60)
+    n = 0
+    for line in out.splitlines():
+        xs = [int(x) for x in line.split()]
+        r = sel[xs[0]]
+        n += 1
+        cl = (xs[1], xs[2], xs[3:])
+        for nm, got in (("llvm", (r["LS"], r["LA"], r["LO"])), ("go", (r["GS"], r["GA"], r["GO"])), ("abi", (r["AS"], r["AA"], cl[2]))):
+            if got != cl:
+                ck.violation("c-compatible-layout-differs-from-host-cc-" + nm,
+                             "amd64 %s: host C compiler (size,align,offsets)=%s, %s=%s" % (r["str"], cl, nm, got), r)
+    return n
+
+
+def run_e2e_zero_tail(ck):
+    """thorough tier: compiled program vs the reference toolchain on a struct with a zero-size tail field
+    (unsafe.Sizeof/Offsetof constants, pointer differences, reflect, slices through reflect)"""
+    L = e2e.LLGo(ck)
+    if not L.ok:
+        ck.correspondence_broken("e2e:llgo-build", L.buildlog[-1000:])
+        return 0
+    d = os.path.join(ck.work, "prog_zt")
+    e2e.write_module(d, {"main.go": open(os.path.join(H, "e2e_zero_tail", "main.go.txt")).read()})
+    rc, out = L.build(d, os.path.join(ck.work, "zt.llgo"))
+    rc2, out2 = e2e.go_build(d, os.path.join(ck.work, "zt.go"))
+    if rc != 0 or rc2 != 0:
+        ck.correspondence_broken("e2e:build-zero-tail", (out + out2)[-1500:])
+        return 0
+    _, _, a = L.run_bin(os.path.join(ck.work, "zt.llgo"))
+    _, _, b = e2e.run_plain(os.path.join(ck.work, "zt.go"))
+    la, lb = a.splitlines(), b.splitlines()
+    for x, y in zip(la, lb):
+        if x != y:
+            ck.violation("e2e-zero-size-tail", "compiled program prints %r, reference %r" % (x, y), {"llgo": x, "go": y})
+    if len(la) != len(lb):
+        ck.violation("e2e-zero-size-tail-crash", "llgo program printed %d lines, reference %d" % (len(la), len(lb)), {"llgo": la[-3:]})
+    return len(lb)
+
+
 def run_harness(ck, n):
     out = os.path.join(ck.work, "c08.jsonl")
     ovp = os.path.join(ck.work, "overlay_c08_ssa.json")
@@ -159,7 +248,7 @@ def run(ck):
     ck.coq_props("LLGoV.C08.Props", "theories/C08/Props.v")
     ck.phase("coq")
 
-    n = {"quick": 1200, "thorough": 20000}[ck.tier]
+    n = {"quick": 700, "thorough": 20000}[ck.tier]
     recs = run_harness(ck, n)
     ck.phase("harness")
     lay = [r for r in recs if r["kind"] == "lay"]
@@ -211,7 +300,12 @@ def run(ck):
             ck.violation(k, w, r)
     if nmodel_bad:
         ck.correspondence_broken("C08.Model/observe", {"n_mismatch": nmodel_bad})
-    ck.add_cov(evaluations=len(lay), nontrivial=len(distinct), classes=dict(classes), disagreements=dict(disagree),
+    ngcc = gcc_layout(ck, lay)
+    ck.phase("gcc")
+    if ck.tier == "thorough":
+        ngcc += run_e2e_zero_tail(ck)
+        ck.phase("e2e")
+    ck.add_cov(evaluations=len(lay) + ngcc, host_cc_structs=ngcc, nontrivial=len(distinct), classes=dict(classes), disagreements=dict(disagree),
                samples=[{"arch": r["arch"], "type": r["str"], "go": [r["GS"], r["GA"], r["GO"]], "llvm": [r["LS"], r["LA"], r["LO"]],
                          "abi": [r["AS"], r["AA"], r["AP"]]} for r in lay[40:43]])
     ck.cov["rule"] = ("boundary list (every scalar, zero-size tails, nested padding, func values in arrays/structs, pointer-then-scalar) + "
